@@ -21,18 +21,57 @@ abbrev W := Int
 /-- the weight `1` in quanta of 1/4 -/
 def unitW : W := 4
 
-/-- what the code needs of a hyperedge key: its nodes and its size -/
+abbrev UKey := List Nat
+abbrev DKey := List Nat × List Nat
+
+/-! ## canonical keys from raw input -/
+
+def insertSorted (a : Nat) : List Nat → List Nat
+  | [] => [a]
+  | b :: bs => if a ≤ b then a :: b :: bs else b :: insertSorted a bs
+/-- `tuple(sorted(edge))` -/
+def canonU (raw : List Nat) : UKey := raw.foldr insertSorted []
+/-- `(tuple(sorted(source)), tuple(sorted(target)))` -/
+def canonD (raw : List Nat × List Nat) : DKey := (canonU raw.1, canonU raw.2)
+
+/-- what the code needs of a hyperedge key: its nodes and its size; for `remove_node` / `clear` also what is left of
+a key when a node is taken out, the order in which `remove_node` walks the hyperedges of a node, and which tables
+`clear()` empties -/
 class Keyed (κ : Type) where
   members : κ → List Node
   size : κ → Nat
   /-- token of the class name the constructor writes into the hypergraph-level metadata (`"type"`) -/
   typeTok : Nat
+  /-- `remove_node(node, keep_edges=True)`: the hyperedge that is re-inserted for an incident hyperedge
+  (`none`: nothing is re-inserted, the hyperedge just disappears) -/
+  without : Node → κ → Option κ
+  /-- the hyperedges `remove_node(node)` walks, in its order, out of the hyperedge listing -/
+  incident : Node → List κ → List κ
+  /-- the node occurs twice in the key (`DirectedHypergraph`: source and target of the same hyperedge) -/
+  twice : Node → κ → Bool
+  /-- `clear()` also empties the hypergraph-level metadata and the empty edges -/
+  clearsHyper : Bool
 
-abbrev UKey := List Nat
-abbrev DKey := List Nat × List Nat
-instance : Keyed UKey := ⟨fun k => k, fun k => k.length, 0⟩
-/-- `_get_edge_size(edge) = len(edge[0]) + len(edge[1])`; nodes are linked sources first -/
-instance : Keyed DKey := ⟨fun k => k.1 ++ k.2, fun k => k.1.length + k.2.length, 1⟩
+/-- `Hypergraph.remove_node`: `tuple(sorted(n for n in edge if n != node))` (the node-less `()` included), the
+hyperedges in the order of `self._adj[node]`; `Hypergraph.clear()` empties every table -/
+instance : Keyed UKey :=
+  { members := fun k => k, size := fun k => k.length, typeTok := 0,
+    without := fun n k => some (canonU (k.filter (fun m => m ≠ n))),
+    incident := fun n ks => ks.filter (fun k => decide (n ∈ k)),
+    twice := fun _ _ => false,
+    clearsHyper := true }
+/-- `_get_edge_size(edge) = len(edge[0]) + len(edge[1])`; nodes are linked sources first.
+`DirectedHypergraph.remove_node(keep_edges=True)` re-inserts `(source - node, target - node)` only `if source and target`,
+walks `get_source_edges(node) + get_target_edges(node)`; `DirectedHypergraph.clear()` leaves `_hypergraph_metadata` alone -/
+instance : Keyed DKey :=
+  { members := fun k => k.1 ++ k.2, size := fun k => k.1.length + k.2.length, typeTok := 1,
+    without := fun n k =>
+      let s := k.1.filter (fun m => m ≠ n)
+      let t := k.2.filter (fun m => m ≠ n)
+      if s.isEmpty || t.isEmpty then none else some (canonD (s, t)),
+    incident := fun n ks => ks.filter (fun k => decide (n ∈ k.1)) ++ ks.filter (fun k => decide (n ∈ k.2)),
+    twice := fun n k => decide (n ∈ k.1) && decide (n ∈ k.2),
+    clearsHyper := false }
 
 /-- the key under which `set_incidence_metadata(edge, node, md)` stores: `(edge, node)` where `edge` is the
 tuple AS GIVEN for `Hypergraph` (not sorted; rendered `(raw, [])`) and the canonical pair for
@@ -170,6 +209,53 @@ def setHyperMeta (c : Content κ) (md : Meta) : Content κ := { c with hmeta := 
 /-- `set_attr_to_hypergraph_metadata(field, value)` -/
 def setHyperAttr (c : Content κ) (a v : Nat) : Content κ := { c with hmeta := AL.set c.hmeta a v }
 
+/-! ## node batches, node removal, `clear()` -/
+
+/-- `add_nodes(node_list)` / `Hypergraph.add_nodes(node_list, metadata)`: with a metadata table the whole batch is
+validated first (every node needs an entry, else `ValueError` and nothing is added), then `add_node(node, metadata[node])`
+one by one (so a node that already has non-empty metadata keeps it) -/
+def addNodes (c : Content κ) (ns : List Node) (tbl : Option (List (Node × Meta))) : Option (Content κ) :=
+  match tbl with
+  | none => some (touchAll c ns)
+  | some t =>
+    if ns.all (fun n => AL.has t n) then some (ns.foldl (fun h n => addNode h n ((AL.get? t n).getD [])) c)
+    else none
+
+/-- one round of the `keep_edges=True` loop of `remove_node`:
+`self.add_edge(<edge without node>, weight=self.get_weight(edge), metadata=self.get_edge_metadata(edge))` -/
+def shrinkInto (n : Node) (h : Content κ) (k : κ) : Option (Content κ) :=
+  match Keyed.without n k with
+  | none => some h
+  | some k' => do
+    let w ← getWeight h k
+    let md ← getEdgeMeta h k
+    addEdge h k' (some w) md
+
+/-- the node is source and target of one hyperedge (never for `Hypergraph`) -/
+def onBothSides (c : Content κ) (n : Node) : Bool := (AL.keys c.edges).any (Keyed.twice n)
+
+/-- `remove_node(node, keep_edges)`: `KeyError` for an absent node; with `keep_edges` every incident hyperedge is
+re-inserted without the node (weights add up on a hyperedge that exists already, metadata replaced); then the incident
+hyperedges are removed one by one; then the node leaves the node table.  Incidence metadata is not touched.
+NOT modelled: a node that is source AND target of one directed hyperedge - there the code removes that hyperedge twice,
+the second `remove_edge` raises half-way (outside C02's quantifier); the model answers `none` and the correspondence
+never sends such a call (harness `on_both_sides`). -/
+def removeNode (c : Content κ) (n : Node) (keep : Bool) : Option (Content κ) :=
+  if !AL.has c.nodes n then none
+  else if onBothSides c n then none
+  else do
+    let es := Keyed.incident n (AL.keys c.edges)
+    let c1 ← if keep then es.foldlM (shrinkInto n) c else some c
+    let c2 ← es.foldlM removeEdge c1
+    some { c2 with nodes := AL.erase c2.nodes n }
+
+/-- `clear()`: every table is emptied; the weighted flag stays; `DirectedHypergraph.clear()` keeps the
+hypergraph-level metadata (`Keyed.clearsHyper`) -/
+def clear (c : Content κ) : Content κ :=
+  { weighted := c.weighted, nodes := [], edges := [], inc := [],
+    emptyEdges := if Keyed.clearsHyper κ then [] else c.emptyEdges,
+    hmeta := if Keyed.clearsHyper κ then [] else c.hmeta }
+
 /-! ## histories -/
 
 inductive Op (κ : Type) where
@@ -186,6 +272,9 @@ inductive Op (κ : Type) where
   | addEmptyEdge (name : Nat) (md : Meta)
   | setHyperMeta (md : Meta)
   | setHyperAttr (a v : Nat)
+  | addNodes (ns : List Node) (tbl : Option (List (Node × Meta)))
+  | removeNode (n : Node) (keep : Bool)
+  | clear
 
 /-- one call; `none` = the call raised -/
 def apply? (c : Content κ) : Op κ → Option (Content κ)
@@ -202,6 +291,9 @@ def apply? (c : Content κ) : Op κ → Option (Content κ)
   | .addEmptyEdge name md => addEmptyEdge c name md
   | .setHyperMeta md => some (setHyperMeta c md)
   | .setHyperAttr a v => some (setHyperAttr c a v)
+  | .addNodes ns tbl => addNodes c ns tbl
+  | .removeNode n keep => removeNode c n keep
+  | .clear => some (clear c)
 
 /-- a rejected call leaves the object as it was -/
 def step (c : Content κ) (op : Op κ) : Content κ := (apply? c op).getD c
@@ -329,15 +421,5 @@ def runSlots (sl : Slots κ) (ops : List (Nat × Op κ)) : Slots κ :=
 /-- the mutations addressed to slot `i` -/
 def opsFor (i : Nat) (ops : List (Nat × Op κ)) : List (Op κ) :=
   (ops.filter (fun t => t.1 = i)).map (·.2)
-
-/-! ## canonical keys from raw input -/
-
-def insertSorted (a : Nat) : List Nat → List Nat
-  | [] => [a]
-  | b :: bs => if a ≤ b then a :: b :: bs else b :: insertSorted a bs
-/-- `tuple(sorted(edge))` -/
-def canonU (raw : List Nat) : UKey := raw.foldr insertSorted []
-/-- `(tuple(sorted(source)), tuple(sorted(target)))` -/
-def canonD (raw : List Nat × List Nat) : DKey := (canonU raw.1, canonU raw.2)
 
 end C05
